@@ -85,6 +85,9 @@ claim("C20", "static analysis: write-effect analysis over the call-graph closure
       "Decides the structural part of 'formatting changes nothing but spaces' and of byte-for-byte serialisation: in every function reachable from hclwrite.format the only store through a *Token is to SpacesBefore, no token-slice element is replaced, no token slice is appended to or copied over, no byte of Token.Bytes is written, and token bytes leave the analysed set only towards listed pure readers; Tokens.WriteTo writes, per token in slice order, a run of the constant ' ' counted down from SpacesBefore and then the whole Bytes; writerTokens builds token i from native token i with the same Type, a full private copy of its Bytes, SpacesBefore = Range.Start.Byte - previous Range.End.Byte, ret[i] = &tokBuf[i]. Not decided: that the scanner's tokens tile the input (C17), idempotence of Format, parse/decode equality of the formatted file, and every programmatic-edit clause (SetAttribute/RemoveBlock ... over edit histories) - those quantify over source texts and edit sequences.",
       TRUST, "DESIGN.md §3 R20, §4 C20")
 
+na("C17", "Static analysis cannot decide this property and no clause of it has (yet) a sound structural check here. Totality of the ragel-generated scanners (scan_tokens.go, scan_string_lit.go: table-driven state machines, ~10k lines of generated gotos) and of the recursive-descent parsers over all byte strings, token tiling of the input and range containment are statements about run-time values of positions and lengths; the explicit panic(...) guards in the parser are caller-contract assertions whose discharge needs the token stream's contents. The one structural necessary condition in reach - every parser loop and recursion consumes a token per turn - is listed in DESIGN.md section 5 as the intended future clause; until it is built and silent on the tree the property is not claimed rather than served by a proxy. Declined, not switched to fuzzing, because this task is restricted to static analysis.")
+na("C19", "The property relates two decoders (hcldec, gohcl) and two syntaxes (native, JSON) and merged/dynamic-block rewrites over all generated configurations: it is an equivalence of results over a space of programs. It has no clause whose truth is visible in the shape of the code: the two hcl.Body implementations share no table or registry that could be cross-checked sibling against sibling, and agreement of their Content/PartialContent/JustAttributes results depends on the values held in the parsed trees. A static rule would either be a frozen-fragment match or would fire on behaviour-preserving edits, so the honest answer for this technique is not applicable.")
+
 for i in range(1, 21):
     pid = "C%02d" % i
     if pid not in CLAIMS and pid not in NA:
